@@ -71,3 +71,39 @@ Lemma name_only_key_refuted : exists f h x, answer_after name_only_key f h x <> 
 Proof.
   exists (fun x => snd x), [(1%N, 1%N)], (1%N, 2%N). vm_compute. discriminate.
 Qed.
+
+(* ------------------------------------------------------------------ *)
+(* two-way memo: history-independent exactly for involutions *)
+Definition ncache_sound (inv : N -> N) (c : ncache) : Prop := forall k v, ncache_get c k = Some v -> v = inv k.
+
+Lemma two_way_call_sound : forall inv c x, (forall z, inv (inv z) = z) -> ncache_sound inv c ->
+  ncache_sound inv (fst (two_way_call inv c x)) /\ snd (two_way_call inv c x) = inv x.
+Proof.
+  intros inv c x Hinv Hs. unfold two_way_call. destruct (ncache_get c x) as [v|] eqn:E; cbn.
+  - split; [exact Hs|apply Hs; exact E].
+  - split; [|reflexivity]. intros k v. cbn. destruct (N.eqb k x) eqn:E1.
+    + apply N.eqb_eq in E1. subst. intros H. injection H as H. subst. reflexivity.
+    + destruct (N.eqb k (inv x)) eqn:E2.
+      * apply N.eqb_eq in E2. subst. intros H. injection H as H. subst. symmetry. apply Hinv.
+      * apply Hs.
+Qed.
+
+Theorem two_way_memo_history_independent : forall inv, (forall z, inv (inv z) = z) ->
+  forall h1 h2 x, two_way_answer inv h1 x = two_way_answer inv h2 x.
+Proof.
+  intros inv Hinv h1 h2 x.
+  assert (S : forall h c, ncache_sound inv c -> ncache_sound inv (two_way_replay inv c h)).
+  { induction h as [|y t IH]; intros c Hs; cbn; [exact Hs|]. apply IH. apply two_way_call_sound; assumption. }
+  assert (E : forall h, two_way_answer inv h x = inv x).
+  { intros h. unfold two_way_answer. apply two_way_call_sound; [exact Hinv|]. apply S. intros k v. cbn. discriminate. }
+  rewrite !E. reflexivity.
+Qed.
+
+(* for a non-involutive inv an earlier call changes a later answer: the back-pointer wins *)
+Theorem two_way_memo_needs_involution : forall inv x,
+  inv (inv x) <> x -> inv x <> x -> two_way_answer inv [x] (inv x) <> two_way_answer inv [] (inv x).
+Proof.
+  intros inv x Hni Hne. unfold two_way_answer, two_way_call. cbn.
+  destruct (N.eqb (inv x) x) eqn:E1; [apply N.eqb_eq in E1; contradiction|].
+  rewrite N.eqb_refl. cbn. intros H. apply Hni. symmetry. exact H.
+Qed.
